@@ -104,8 +104,11 @@ func CalculateAmountToClaim(
 		// calculate based on flow rate and remaining deposit
 		timeSinceLast := nowTime.Sub(lastOutflowTime)
 		secondsSinceLast := int64(timeSinceLast / time.Second)
-		numCoins := secondsSinceLast * flowRate
-		amountToClaim = sdk.NewCoin(deposit.Denom, sdk.NewIntFromUint64(uint64(numCoins)))
+		if secondsSinceLast < 0 {
+			secondsSinceLast = 0
+		}
+		numCoins := sdk.NewInt(secondsSinceLast).Mul(sdk.NewInt(flowRate))
+		amountToClaim = sdk.NewCoin(deposit.Denom, numCoins)
 		if deposit.Amount.GT(amountToClaim.Amount) {
 			remainingDepositValue = deposit.Sub(amountToClaim)
 		} else {
